@@ -357,10 +357,16 @@ class World:
         recs = self.env.printer.records
         marks = []
         named = []
+        found = []
         in_diag = False
         for args in recs:
             for a in args:
                 if isinstance(a, str):
+                    if "Found value:" in a:
+                        try:
+                            found.append(int(a.split("Found value:")[1].split()[0]))
+                        except (ValueError, IndexError):
+                            pass
                     m = self._marker(a)
                     if m:
                         marks.append(m)
@@ -371,6 +377,14 @@ class World:
                     named.append(a.name)
         if marks:
             ev["prints"] = marks
+        if ev.get("outcome") == "no_progress" and len(found) >= 50:
+            # the step cap cut an incremental optimisation whose incumbent improved at every single
+            # iteration (the engine may start thousands of units from the optimum and come down
+            # one unit per model): slow convergence, not a livelock - the run is inconclusive
+            d = [b - a for a, b in zip(found, found[1:])]
+            if all(x < 0 for x in d) or all(x > 0 for x in d):
+                ev["outcome"] = "slow_convergence"
+                ev["incumbents"] = [found[0], found[-1], len(found)]
         if in_diag:
             ev["diagnosis"] = named
         self.env.printer.records = []
@@ -457,7 +471,14 @@ class World:
                     if f"x:{tid}" in snap:
                         ors.append(["!=", ["x", tid], snap[f"x:{tid}"]])
                 ev["blocks"] = ["or"] + ors
-            res = s.find_another_solution()
+            try:
+                res = s.find_another_solution()
+            except OSError:
+                # raised out of the solve() that follows the blocking clause (injected disk fault while
+                # saving an intermediate state): the clause was appended and stays
+                if "blocks" in ev:
+                    cl.blocked.append(ev["blocks"])
+                raise
             if "blocks" in ev:
                 cl.blocked.append(ev["blocks"])
             self._record_solution(cl, ev, res)
@@ -471,16 +492,22 @@ class World:
                     ev["var_before"] = engine._val(s._model, var)
                 except _z3.Z3Exception:
                     pass
-            res = s.find_another_solution_for_variable(var)
-            if ev.get("var_before") is not None:
-                hn = step["args"]["var"]
-                kind, _, rest = hn.partition(":")
-                if kind in ("s", "e", "d"):
-                    ev["blocks"] = ["!=", [kind, rest], ev["var_before"]]
-                    cl.blocked.append(ev["blocks"])
-                elif kind == "H":
-                    ev["blocks"] = ["!=", ["H"], ev["var_before"]]
-                    cl.blocked.append(ev["blocks"])
+            def note_block():
+                if ev.get("var_before") is not None:
+                    hn = step["args"]["var"]
+                    kind, _, rest = hn.partition(":")
+                    if kind in ("s", "e", "d"):
+                        ev["blocks"] = ["!=", [kind, rest], ev["var_before"]]
+                        cl.blocked.append(ev["blocks"])
+                    elif kind == "H":
+                        ev["blocks"] = ["!=", ["H"], ev["var_before"]]
+                        cl.blocked.append(ev["blocks"])
+            try:
+                res = s.find_another_solution_for_variable(var)
+            except OSError:
+                note_block()   # see find_another: the clause precedes the solve() that raised
+                raise
+            note_block()
             self._record_solution(cl, ev, res)
         elif op == "export_smt2":
             path = step.get("args", {}).get("path", f"{cl.id}.smt2")
